@@ -156,14 +156,14 @@ def work(chunk):
 
 def items(tier):
     out = []
-    dues = ((-1, -1, -1), (3, 5, 2), (4, 4, 4), (2, 2, 5), (6, 3, 3))
+    dues = ((-1, -1, -1), (3, 5, 2), (4, 4, 4), (2, 2, 5), (6, 3, 3), (0, -1, 0), (-1, 0, -1))
     kinds = ("FS",) if tier == "quick" else ("FS", "SS", "FF")
     flows = list(F.flows(3, kinds, (1, 2)))
     if tier == "quick":
         flows = flows[::2]
     for fl in flows:
         for lay in ("POOL1", "POOL2"):
-            for due in (dues if tier == "thorough" else (dues[1], dues[3])):
+            for due in (dues if tier == "thorough" else (dues[1], dues[3], dues[5], dues[6])):
                 sp = F.with_teams(fl, lay)
                 sp = dict(sp, tasks=[dict(t, due=due[i]) for i, t in enumerate(sp["tasks"])])
                 for dflag, rev in itertools.product((False, True), repeat=2):
